@@ -1,6 +1,6 @@
-// vcheck runs one registered property check:  vcheck <Cxx> [--replay <file>]
+// Main is the entry point of every per-property binary:  <bin> <Cxx> [--replay <file>]
 // Tier from VERIF_TIER (quick|thorough), seed from VERIF_SEED.
-package main
+package core
 
 import (
 	"fmt"
@@ -8,26 +8,25 @@ import (
 	"runtime/debug"
 	"strings"
 
-	"verif/harness/internal/core"
 )
 
-func main() {
+func Main() {
 	if len(os.Args) < 2 {
-		fmt.Fprintf(os.Stderr, "usage: vcheck <property> [--replay file]\nregistered: %s\n", strings.Join(core.Props(), " "))
+		fmt.Fprintf(os.Stderr, "usage: vcheck <property> [--replay file]\nregistered: %s\n", strings.Join(Props(), " "))
 		os.Exit(2)
 	}
 	// child-process entry points (crash workloads etc.) register themselves
 	// under names starting with "child:"
-	if fn := core.LookupChild(os.Args[1]); fn != nil {
+	if fn := LookupChild(os.Args[1]); fn != nil {
 		os.Exit(fn(os.Args[2:]))
 	}
 	prop := os.Args[1]
-	ch := core.Lookup(prop)
+	ch := Lookup(prop)
 	if ch == nil {
-		fmt.Fprintf(os.Stderr, "unknown property %q; registered: %s\n", prop, strings.Join(core.Props(), " "))
+		fmt.Fprintf(os.Stderr, "unknown property %q; registered: %s\n", prop, strings.Join(Props(), " "))
 		os.Exit(2)
 	}
-	c, err := core.NewCtx(prop, ch.Level)
+	c, err := NewCtx(prop, ch.Level)
 	if err != nil {
 		fmt.Fprintln(os.Stderr, err)
 		os.Exit(2)
